@@ -292,7 +292,7 @@ def _check(run, rng, proof_ok, t):
                         "(relative, absolute, through another link, chains) and inside (incl. from outside back in), dangling links and loops; "
                         "18 outside / 12 inside / 10 unresolvable argument spellings x {import, include, include_hex} x nesting depth 0-2 x 11 ways of naming "
                         "the top-level file (absolute, through links, relative to several current directories); roots that are subdirectories, top-level "
-                        "files that are links, 39/40/41-link chains, Ingest::ingest on virtual paths; distinct = distinct trees")
+                        "files that are links, 39/40/41-link chains, Ingest::ingest on virtual paths; the same argument string used from two directories (inside from one, outside from the other, both orders); distinct = distinct trees")
     # ---- property oracle
     index = {os.path.realpath(k_): v for k_, v in t.files.items()}
     found = 0
